@@ -56,6 +56,15 @@ def random_expr(rng, tags=None):
     return ast, ["--tags=%s" % T.render_v2(ast, rng, rng.choice(["min", "full"]), rng.choice([True, False]))]
 
 
+def pick_environment(rng, mon, choices=None):
+    """The process environment of a `python -m behave` sample (bvm.lab.subproc.Project.ENVIRONMENTS): optimised interpreter, console /
+    locale encodings, escalated warnings -- none of them is any business of the property."""
+    # (not the C locale: there behave cannot write the programs' own non-ASCII step texts to its output streams at all)
+    name = rng.choice(choices or ["plain", "plain", "optimized", "optimized_by_variable", "latin1_console", "warnings_as_errors_for_user_code"])
+    mon.seen("process_environment", name)
+    return name
+
+
 def texts_under_several_keywords(program):
     """Step texts of scenarios that occur under more than one of Given / When / Then, with an id ending in 0 (typed definitions)."""
     seen = {}
